@@ -169,3 +169,127 @@ func VerifBatchFanoutWhileLeaving() {
 	b.Close()
 	zzverif.Cover("batch_fanout_while_leaving_done")
 }
+
+// A Batch for a key whose previous value has just become due (the clock reached its time, the processor may or may not
+// have delivered it yet): the old value is delivered at most once, the new value exactly once and not before ITS
+// interval has passed - never early because it took the place of the due item.
+//
+//verif:harness prop=C10 name=batch_replace_when_due threads=4 sched=delay preempt=3 t_preempt=4 unwind=12 witness=lenient
+func VerifBatchReplaceWhenDue() {
+	start := zzverif.TimeFromNanos(1_000_000_000)
+	clk := zzverifstubs.NewClock(start)
+	b := New[int, int](vInterval)
+	b.WithClock(clk)
+	s := &vSub{ch: make(chan int)}
+	b.Subscribe(context.Background(), s.ch)
+	go vConsume(s)
+	v1, v2 := zzverif.Int("v1"), zzverif.Int("v2")
+	zzverif.Assume(v1 != v2)
+	b.Batch(1, v1)
+	zzverif.WaitQuiescent()
+	clk.Advance(vInterval) // v1 is due now; no quiescence: the processor races with the next call
+	b.Batch(1, v2)
+	zzverif.WaitQuiescent()
+	for _, v := range s.got {
+		zzverif.Assert(v != v2, "new_value_not_delivered_before_its_interval")
+	}
+	zzverif.Assert(len(s.got) <= 1, "old_value_at_most_once")
+	clk.Advance(vInterval - time.Millisecond)
+	zzverif.WaitQuiescent()
+	for _, v := range s.got {
+		zzverif.Assert(v != v2, "new_value_not_delivered_before_its_interval")
+	}
+	clk.Advance(time.Millisecond)
+	zzverif.WaitQuiescent()
+	n1, n2 := 0, 0
+	for _, v := range s.got {
+		if v == v1 {
+			n1++
+		}
+		if v == v2 {
+			n2++
+		}
+	}
+	zzverif.Assert(n1 <= 1, "old_value_at_most_once")
+	zzverif.Assert(n2 == 1, "last_value_for_key_delivered_exactly_once")
+	zzverif.Assert(s.got[len(s.got)-1] == v2, "last_value_for_key_delivered_last")
+	b.Close()
+	zzverif.Cover("batch_replace_when_due_done")
+}
+
+// Membership over time (same shape as the broadcaster's): departures and new subscriptions, forked, interleaved with
+// one Batch + interval each; after every step exactly the subscribers still subscribed receive the value.
+//
+//verif:harness prop=C10 name=batch_membership threads=14 sched=delay preempt=0 unwind=14 witness=lenient
+func VerifBatchMembership() {
+	start := zzverif.TimeFromNanos(1_000_000_000)
+	clk := zzverifstubs.NewClock(start)
+	b := New[int, int](vInterval)
+	b.WithClock(clk)
+	type member struct {
+		s      *vSub
+		cancel context.CancelFunc
+		live   bool
+	}
+	var ms []*member
+	join := func() {
+		ctx, cancel := context.WithCancel(context.Background())
+		m := &member{s: &vSub{ch: make(chan int)}, cancel: cancel, live: true}
+		b.Subscribe(ctx, m.s.ch)
+		go vConsume(m.s)
+		ms = append(ms, m)
+	}
+	count := func(got []int, v int) int {
+		n := 0
+		for _, x := range got {
+			if x == v {
+				n++
+			}
+		}
+		return n
+	}
+	join()
+	join()
+	next := 1
+	check := func() {
+		b.Batch(next, 100+next)
+		clk.Advance(vInterval)
+		zzverif.WaitQuiescent()
+		for _, m := range ms {
+			if m.live {
+				zzverif.Assert(count(m.s.got, 100+next) == 1, "subscribed_member_receives_the_value_once")
+			} else {
+				zzverif.Assert(count(m.s.got, 100+next) == 0, "departed_member_receives_nothing_more")
+			}
+		}
+		next++
+	}
+	check()
+	steps := 3
+	if zzverif.Thorough() {
+		steps = 5
+	}
+	for s := 0; s < steps; s++ {
+		if zzverif.Bool("join") {
+			join()
+		} else {
+			var live []*member
+			for _, m := range ms {
+				if m.live {
+					live = append(live, m)
+				}
+			}
+			if len(live) == 0 {
+				join()
+			} else {
+				m := live[zzverif.Choose("who_leaves", len(live))]
+				m.cancel()
+				m.live = false
+				zzverif.WaitQuiescent()
+			}
+		}
+		check()
+	}
+	b.Close()
+	zzverif.Cover("batch_membership_done")
+}
